@@ -838,9 +838,9 @@ class Prims:
                 ok_all = True
                 for cmd in cmds:
                     for dj in self.ctx.ok.get(cmd, []):
-                        dj = set(dj) | la
                         if not any(a.kind == "present" and a.path == o[1] for a in dj):
                             continue
+                        dj = set(dj) | la
                         eqs = {a.args[0] for a in dj if a.kind == "eq" and a.path == o[1]}
                         if not eqs or not eqs <= vals:
                             ok_all = False
